@@ -17,6 +17,7 @@
 (*   ReadToEnd(i)       read until EOF                                     *)
 (*   Close(i)           close (repeatable)                                 *)
 (*   ReadAfterClose(i)  read on a reader the client already closed         *)
+(*   ConcClose(i)       two goroutines inside Close(i) at the same time    *)
 (* mode = "storage": real GetObject with k byte ranges over a 3-part       *)
 (* object; mode = "direct": WithTxReadClosers with fake readers whose      *)
 (* every Read call queries the transaction.                                *)
@@ -118,32 +119,43 @@ ReadToEnd(i)      == st[i] = "open"   /\ DoRead("ReadToEnd", i, RLen(i) + 1)
 ReadAfterClose(i) == st[i] = "closed" /\ DoRead("ReadAfterClose", i, StepBytes)
 
 \* ------------------------------------------------------------------ close
-Release(last) ==
-  IF last THEN tx' = "rolledback" /\ rollbacks' = rollbacks + 1
-  ELSE UNCHANGED <<tx, rollbacks>>
+\* one Close call seen from the reader it is made on: s = [st, rem, tx, rb, dv]
+CloseOnce(s) ==
+  LET dec == [s EXCEPT !.rem = s.rem - 1,
+                       !.tx  = IF s.rem - 1 = 0 THEN "rolledback" ELSE s.tx,
+                       !.rb  = IF s.rem - 1 = 0 THEN s.rb + 1 ELSE s.rb]
+  IN IF s.st = "open" THEN [dec EXCEPT !.st = "closed"]
+     ELSE IF DevRepeat \in Deviations
+          \* the code (before the fix): the hook runs on every Close, so a repeated Close
+          \* of one reader is counted like the Close of another reader
+          THEN [dec EXCEPT !.dv = s.dv \cup {DevRepeat}]
+          ELSE s
 
-Close(i) ==
+\* n Close calls on reader i, one after the other
+CloseN(act, i, n) ==
+  LET s0 == [st |-> st[i], rem |-> remaining, tx |-> tx, rb |-> rollbacks, dv |-> devTaken]
+      s  == IF n = 1 THEN CloseOnce(s0) ELSE CloseOnce(CloseOnce(s0))
+  IN
   /\ i \in 1..k /\ st[i] # "absent"
-  /\ closes' = [closes EXCEPT ![i] = @ + 1]
-  /\ IF st[i] = "open" THEN
-       /\ st' = [st EXCEPT ![i] = "closed"]
-       /\ remaining' = remaining - 1
-       /\ Release(remaining - 1 = 0)
-       /\ UNCHANGED devTaken
-     ELSE IF DevRepeat \in Deviations THEN
-       \* the code: the hook runs on every Close, so a repeated Close of one
-       \* reader is counted like the Close of another reader
-       /\ remaining' = remaining - 1
-       /\ Release(remaining - 1 = 0)
-       /\ devTaken' = devTaken \cup {DevRepeat}
-       /\ UNCHANGED st
-     ELSE UNCHANGED <<st, remaining, tx, rollbacks, devTaken>>
-  /\ res' = [act |-> "Close", i |-> i, n |-> 0, err |-> "none", judged |-> FALSE, any |-> FALSE]
+  /\ closes' = [closes EXCEPT ![i] = @ + n]
+  /\ st' = [st EXCEPT ![i] = s.st]
+  /\ remaining' = s.rem /\ tx' = s.tx /\ rollbacks' = s.rb /\ devTaken' = s.dv
+  /\ res' = [act |-> act, i |-> i, n |-> 0, err |-> "none", judged |-> FALSE, any |-> FALSE]
   /\ UNCHANGED <<k, mode, fnerr, pos, failed>>
+
+Close(i) == CloseN("Close", i, 1)
+
+\* Two goroutines call Close on the SAME reader at the same time (both are inside
+\* Close together).  Close is the atomic action above, so whatever the overlap
+\* the outcome must be that of the two calls in some order - and both orders
+\* are CloseN(i, 2): the reader is counted once, the transaction is released
+\* only if it was the last open reader, both calls report success.
+ConcClose(i) == CloseN("ConcClose", i, 2)
 
 Next == \E i \in Readers :
           \/ Read(i) \/ ReadToEnd(i) \/ ReadAfterClose(i)
           \/ (closes[i] < MaxCloses /\ Close(i))
+          \/ (closes[i] + 2 <= MaxCloses /\ ConcClose(i))
 
 Spec == Init /\ [][Next]_vars
 
